@@ -21,6 +21,8 @@ pub struct SysCfg {
     /// allow init expressions to read earlier states
     pub init_reads_earlier: bool,
     pub div_rem: bool,
+    /// give some inputs the names the btor2 reader gives to anonymous inputs/states
+    pub anon_inputs: bool,
 }
 
 impl Default for SysCfg {
@@ -37,6 +39,7 @@ impl Default for SysCfg {
             arrays_in_exprs: true,
             init_reads_earlier: true,
             div_rem: false,
+            anon_inputs: false,
         }
     }
 }
@@ -59,7 +62,12 @@ pub fn gen_sys(ctx: &mut Context, rng: &mut Rng, cfg: &SysCfg) -> TransitionSyst
     let mut input_syms: Vec<ExprRef> = vec![];
     for k in 0..n_inputs {
         let w = *rng.pick(&cfg.widths);
-        input_syms.push(ctx.bv_symbol(&format!("i{k}"), w));
+        let name = if cfg.anon_inputs && rng.chance(1, 2) {
+            if rng.chance(3, 4) { format!("_input_{k}") } else { format!("_state_{k}") }
+        } else {
+            format!("i{k}")
+        };
+        input_syms.push(ctx.bv_symbol(&name, w));
     }
     for i in input_syms.iter() {
         sys.add_input(ctx, *i);
